@@ -11,6 +11,8 @@ ONE = [s + '_ch' for s in SEARCH] + ['sw_ch', 'ew_ch', 'ct_ch', 'substr', 'copy'
 NONEMPTY = ['access']
 NEEDLE_ONLY = ['cstr_ctor']
 
+CHW = {'char': 1, 'char16_t': 2, 'wchar_t': 4}
+
 def queries(tier, prop='C08'):
     hmax, nmax = (4, 3) if tier == 'quick' else (6, 4)
     if prop == 'C02' and tier == 'quick':
@@ -18,13 +20,21 @@ def queries(tier, prop='C08'):
     chars = ['char'] if tier == 'quick' else ['char', 'char16_t', 'wchar_t']
     ub = prop == 'C02'
     out = []
+    bud = 120 if tier == 'quick' else 600
+
+    def q(e, ch, hn, nn):
+        # byte loops of the runtime (memcpy/memcmp/memchr models) run over characters * sizeof(CH)
+        by = CHW[ch] * (hn + nn) + 4
+        return dict(entry='q_' + e, cfg={'CH': ch, 'HN': hn, 'NN': nn}, unwind=hn + nn + 3,
+                    unwindset={'ll_memcpy.0': by, 'll_memmove.0': by, 'll_memmove.1': by, 'memcmp.0': by, 'memchr.0': by, 'bcmp.0': by},
+                    solver=['cadical', 'minisat'] if (tier != 'quick' or ub) else ['minisat', 'cadical'], budget=bud, ub=ub, nofunc=ub)
     for ch in chars:
         if ch != 'char': hm, nm = min(hmax, 4), min(nmax, 3)
         else: hm, nm = hmax, nmax
         for hn in range(hm + 1):
             for e in ONE + (NONEMPTY if hn else []):
-                out.append(dict(entry='q_' + e, cfg={'CH': ch, 'HN': hn, 'NN': 0}, unwind=hn + nm + 3, budget=120, ub=ub, nofunc=ub))
+                out.append(q(e, ch, hn, 0))
             for nn in range(nm + 1):
                 for e in TWO + (NEEDLE_ONLY if hn == 0 else []):
-                    out.append(dict(entry='q_' + e, cfg={'CH': ch, 'HN': hn, 'NN': nn}, unwind=hn + nn + 3, budget=120, ub=ub, nofunc=ub))
+                    out.append(q(e, ch, hn, nn))
     return out
